@@ -17,7 +17,8 @@ use redis_sim::redis::SDS;
 use redis_sim::replication::lattice::{LamportClock, ReplicaId};
 use redis_sim::replication::state::{ReplicatedValue, ReplicationDelta};
 use redis_sim::streaming::wal_store::{InMemoryWalStore, WalError, WalFileReader, WalFileWriter, WalStore};
-use redis_sim::streaming::{spawn_wal_actor, FsyncPolicy, WalConfig, WalEntry, WalRotator};
+use redis_sim::streaming::wal_config::{FsyncPolicy, WalConfig};
+use redis_sim::streaming::{spawn_wal_actor, WalEntry, WalRotator};
 use serde_json::json;
 use std::collections::{BTreeMap, HashMap};
 use std::sync::{Arc, Mutex};
@@ -53,6 +54,14 @@ struct Inner {
     trace: Vec<String>,
     /// crash image after every call (index 0 = before the first call)
     images: Vec<Vec<(String, Vec<u8>)>>,
+    /// (call index, file name, bytes handed to append, append succeeded)
+    appended: Vec<(usize, String, Vec<u8>, bool)>,
+    actor_panicked: bool,
+    /// outcome of the upcoming `list()` calls, in order (true = fails); empty = succeeds
+    list_plan: std::collections::VecDeque<bool>,
+    list_calls: usize,
+    spawn_failed: Vec<bool>,
+    policy_mismatch: bool,
 }
 
 impl Inner {
@@ -92,6 +101,9 @@ impl FaultStore {
         s.faults = faults.iter().map(|(i, o)| (base + i, o.clone())).collect();
         s.dead_from = dead.map(|d| base + d);
         base
+    }
+    fn plan_list(&self, fails: bool) {
+        self.inner.lock().unwrap().list_plan.push_back(fails);
     }
     /// the machine crashes: every file keeps exactly what a successful fsync covered
     fn crash(&self) {
@@ -136,6 +148,8 @@ impl WalFileWriter for FaultWriter {
                 Err(WalError::PartialWrite { expected: data.len(), actual: k })
             }
         };
+        let idx = s.trace.len();
+        s.appended.push((idx, self.name.clone(), data.to_vec(), o == Outcome::Ok));
         s.record(format!("a{}:{}:{}", self.seq, data.len(), o.show()));
         res
     }
@@ -193,7 +207,12 @@ impl WalStore for FaultStore {
         s.files.get(name).map(|f| FaultReader { data: f.0.clone() }).ok_or_else(|| WalError::NotFound(name.to_string()))
     }
     fn list(&self) -> Result<Vec<String>, WalError> {
-        Ok(self.inner.lock().unwrap().files.keys().cloned().collect())
+        let mut s = self.inner.lock().unwrap();
+        s.list_calls += 1;
+        if s.list_plan.pop_front().unwrap_or(false) {
+            return Err(io_err("injected list failure"));
+        }
+        Ok(s.files.keys().cloned().collect())
     }
     fn delete(&self, name: &str) -> Result<(), WalError> {
         let mut s = self.inner.lock().unwrap();
@@ -225,24 +244,30 @@ struct W {
 /// every public message of `WalActorHandle`
 #[derive(Clone)]
 enum Msg {
+    Cancelled(W),  // write_durable whose caller is dropped while it waits for the ack
     Durable(W),    // write_durable
     Forget(W),     // write_fire_and_forget
     Tick,          // sync_tick
     Truncate(u64), // truncate
+    TruncateListFails(u64), // truncate whose `store.list()` fails: the actor logs the error, nothing is deleted
+    Shutdown,               // shutdown() sent as one message of a burst, racing with the writers
 }
 
 impl Msg {
     fn kind(&self) -> &'static str {
         match self {
+            Msg::Cancelled(_) => "write_durable(cancelled)",
             Msg::Durable(_) => "write_durable",
             Msg::Forget(_) => "write_fire_and_forget",
             Msg::Tick => "sync_tick",
             Msg::Truncate(_) => "truncate",
+            Msg::TruncateListFails(_) => "truncate(list-fails)",
+            Msg::Shutdown => "shutdown(in-burst)",
         }
     }
     fn write(&self) -> Option<&W> {
         match self {
-            Msg::Durable(w) | Msg::Forget(w) => Some(w),
+            Msg::Durable(w) | Msg::Forget(w) | Msg::Cancelled(w) => Some(w),
             _ => None,
         }
     }
@@ -261,17 +286,69 @@ struct Inc {
     dead: Option<usize>,           // relative: every call from here on fails
     groups: Vec<Vec<Msg>>,
     ending: Ending,
+    /// `store.list()` fails while `WalRotator::new` scans the directory: `spawn_wal_actor` returns Err,
+    /// this incarnation never runs (its messages are never sent)
+    spawn_list_fails: bool,
+}
+
+#[derive(Clone, Copy, PartialEq, Debug)]
+enum Pol {
+    Always,
+    EverySec,
+    No,
+}
+
+impl Pol {
+    fn letter(&self) -> &'static str {
+        match self {
+            Pol::Always => "a",
+            Pol::EverySec => "e",
+            Pol::No => "n",
+        }
+    }
 }
 
 struct Workload {
+    pol: Pol,
+    /// the configuration goes through serde_json (to_string / from_str) before the actor is spawned
+    cfg_via_json: bool,
+    /// group_commit_max_wait in microseconds (virtual time)
+    max_wait_us: u64,
+    /// the messages of a burst are sent by ONE caller without yielding (only messages that do not wait:
+    /// fire-and-forget, tick, truncate): the mailbox (WAL_CHANNEL_CAPACITY) fills up and the excess is dropped
+    no_yield: bool,
     max_size: usize,
     max_entries: usize,
     incs: Vec<Inc>,
 }
 
+/// the configuration handed to `spawn_wal_actor`: policy and `enabled` come from /repo's own
+/// constructors (`WalConfig::always_fsync` / `every_second` / `default`), the generated fields on top
+fn make_config(wl: &Workload) -> WalConfig {
+    let dir = std::path::PathBuf::from("/nonexistent");
+    let base = match wl.pol {
+        Pol::Always => WalConfig::always_fsync(dir),
+        Pol::EverySec => WalConfig::every_second(dir),
+        Pol::No => WalConfig { enabled: true, wal_dir: dir, fsync_policy: FsyncPolicy::No, ..WalConfig::default() },
+    };
+    let cfg = WalConfig {
+        max_file_size: wl.max_size,
+        group_commit_max_entries: wl.max_entries,
+        group_commit_max_wait: Duration::from_micros(wl.max_wait_us),
+        truncation_check_interval: Duration::from_secs(3600),
+        ..base
+    };
+    if wl.cfg_via_json {
+        let js = serde_json::to_string(&cfg).expect("config to json");
+        serde_json::from_str(&js).expect("config from json")
+    } else {
+        cfg
+    }
+}
+
 impl Workload {
     fn single(max_size: usize, max_entries: usize, faults: Vec<(usize, Outcome)>, groups: Vec<Vec<Msg>>) -> Workload {
-        Workload { max_size, max_entries, incs: vec![Inc { faults, dead: None, groups, ending: Ending::End }] }
+        Workload { pol: Pol::Always, cfg_via_json: false, max_wait_us: 200, no_yield: false, max_size, max_entries, incs: vec![Inc { faults, dead: None, groups, ending: Ending::End, spawn_list_fails: false }] }
     }
     fn msgs(&self) -> impl Iterator<Item = &Msg> {
         self.incs.iter().flat_map(|i| i.groups.iter().flatten())
@@ -307,6 +384,10 @@ fn ack_name(r: &Result<(), WalError>) -> &'static str {
 }
 
 struct RunResult {
+    appended: Vec<(usize, String, Vec<u8>, bool)>,
+    actor_panicked: bool,
+    spawn_failed: Vec<bool>,
+    policy_mismatch: bool,
     acks: Vec<(u64, &'static str, usize)>, // id, result, number of I/O calls when the caller saw it
     trace: Vec<String>,
     images: Vec<Vec<(String, Vec<u8>)>>,
@@ -323,29 +404,56 @@ fn run_real(wl: &Workload) -> RunResult {
         let rt = tokio::runtime::Builder::new_current_thread().enable_time().start_paused(true).build().unwrap();
         let st2 = store.clone();
         let groups = inc.groups.clone();
-        let cfg = WalConfig {
-            enabled: true,
-            wal_dir: std::path::PathBuf::from("/nonexistent"),
-            fsync_policy: FsyncPolicy::Always,
-            max_file_size: wl.max_size,
-            group_commit_max_entries: wl.max_entries,
-            group_commit_max_wait: Duration::from_micros(200),
-            truncation_check_interval: Duration::from_secs(3600),
-        };
-        let mut got = rt.block_on(async move {
+        let cfg = make_config(wl);
+        let pol = wl.pol;
+        let crash_next = inc.ending == Ending::Crash;
+        let no_yield = wl.no_yield;
+        let want_policy = cfg.fsync_policy;
+        store.inner.lock().unwrap().list_plan.clear();
+        if inc.spawn_list_fails {
+            store.plan_list(true);
+        }
+        let (mut got, panicked) = rt.block_on(async move {
             // a NEW actor (and rotator: WalRotator::new scans the store) over the shared store
-            let (handle, task) = spawn_wal_actor(st2.clone(), cfg).expect("spawn actor");
+            let (handle, task) = match spawn_wal_actor(st2.clone(), cfg) {
+                Ok(x) => x,
+                Err(_) => {
+                    st2.inner.lock().unwrap().spawn_failed.push(true);
+                    return (Vec::new(), false);
+                }
+            };
+            st2.inner.lock().unwrap().spawn_failed.push(false);
+            if handle.fsync_policy() != want_policy {
+                st2.inner.lock().unwrap().policy_mismatch = true;
+            }
             let mut acks = Vec::new();
             for g in groups {
+                if no_yield {
+                    // one caller, no await between the sends
+                    for m in g {
+                        match m {
+                            Msg::Forget(w) => handle.write_fire_and_forget(w.delta.clone(), w.ts),
+                            Msg::Tick => handle.sync_tick(),
+                            Msg::Truncate(t) => {
+                                st2.plan_list(false);
+                                handle.truncate(t)
+                            }
+                            _ => panic!("no_yield bursts carry only messages that do not wait"),
+                        }
+                    }
+                    tokio::time::sleep(Duration::from_millis(10)).await;
+                    continue;
+                }
                 // a burst of concurrent callers: tasks run in spawn order, so the messages reach the
                 // mailbox in this order, all before the actor handles the first of them
                 let mut js = Vec::new();
+                let cancelled: Vec<bool> = g.iter().map(|m| matches!(m, Msg::Cancelled(_))).collect();
                 for m in g {
                     let h = handle.clone();
                     let st3 = st2.clone();
                     js.push(tokio::spawn(async move {
                         match m {
-                            Msg::Durable(w) => {
+                            Msg::Durable(w) | Msg::Cancelled(w) => {
                                 let r = h.write_durable(w.delta.clone(), w.ts).await;
                                 Some((w.id, ack_name(&r), st3.calls()))
                             }
@@ -358,13 +466,33 @@ fn run_real(wl: &Workload) -> RunResult {
                                 None
                             }
                             Msg::Truncate(t) => {
+                                st3.plan_list(false);
                                 h.truncate(t);
+                                None
+                            }
+                            Msg::TruncateListFails(t) => {
+                                st3.plan_list(true);
+                                h.truncate(t);
+                                None
+                            }
+                            Msg::Shutdown => {
+                                h.shutdown().await;
                                 None
                             }
                         }
                     }));
                 }
-                for j in js {
+                // every caller has sent its message (one pass of the scheduler); the cancelled ones are
+                // dropped now, while they wait for their ack
+                if cancelled.iter().any(|c| *c) {
+                    tokio::task::yield_now().await;
+                }
+                for (j, c) in js.into_iter().zip(cancelled) {
+                    if c {
+                        j.abort();
+                        let _ = j.await;
+                        continue;
+                    }
                     if let Some(a) = j.await.expect("caller task") {
                         acks.push(a);
                     }
@@ -374,24 +502,31 @@ fn run_real(wl: &Workload) -> RunResult {
                 // The clock is paused, so this costs no real time.
                 tokio::time::sleep(Duration::from_millis(10)).await;
             }
-            // every burst ends flushed, so the final flush of shutdown() issues no I/O; it only
-            // stops the actor (also before a crash)
-            handle.shutdown().await;
+            // Always: every burst ends flushed, so the final flush of shutdown() issues no I/O; it only
+            // stops the actor (also before a crash).  EverySecond: shutdown() fsyncs once more if
+            // anything is unsynced — before a CRASH the handles are just dropped instead (the actor
+            // stops when every sender is gone, without any I/O).
+            if pol == Pol::Always || !crash_next {
+                handle.shutdown().await;
+            }
             drop(handle); // the actor only stops when every sender is gone
-            let _ = task.await;
-            acks
+            let panicked = matches!(task.await, Err(e) if e.is_panic());
+            (acks, panicked)
         });
+        if panicked {
+            store.inner.lock().unwrap().actor_panicked = true;
+        }
         acks.append(&mut got);
         if inc.ending == Ending::Crash {
             store.crash();
         }
     }
     let s = store.inner.lock().unwrap();
-    RunResult { acks, trace: s.trace.clone(), images: s.images.clone(), files: s.files.iter().map(|(n, (d, _))| (n.clone(), d.clone())).collect(), bases }
+    RunResult { appended: s.appended.clone(), actor_panicked: s.actor_panicked, spawn_failed: s.spawn_failed.clone(), policy_mismatch: s.policy_mismatch, acks, trace: s.trace.clone(), images: s.images.clone(), files: s.files.iter().map(|(n, (d, _))| (n.clone(), d.clone())).collect(), bases }
 }
 
 /// recovery of a crash image through the real rotator
-fn recover_ids(img: &[(String, Vec<u8>)], by_data: &HashMap<Vec<u8>, u64>, max: usize) -> Vec<String> {
+fn recover_ids(img: &[(String, Vec<u8>)], by_data: &HashMap<(Vec<u8>, u64), u64>, max: usize) -> Vec<String> {
     let st = InMemoryWalStore::new();
     for (n, b) in img {
         let mut w = st.create(n).unwrap();
@@ -401,11 +536,12 @@ fn recover_ids(img: &[(String, Vec<u8>)], by_data: &HashMap<Vec<u8>, u64>, max: 
     }
     let rot = WalRotator::new(st, max).unwrap();
     let es: Vec<WalEntry> = rot.recover_all_entries().unwrap();
-    es.iter().map(|e| by_data.get(&e.data).map(|i| i.to_string()).unwrap_or("?".into())).collect()
+    es.iter().map(|e| by_data.get(&(e.data.clone(), e.timestamp)).map(|i| i.to_string()).unwrap_or("?".into())).collect()
 }
 
-fn op_line(wl: &Workload, bases: &[usize]) -> String {
-    let mut s = format!("G {} {} {} {} {} {} K {}", CODE_SYNCS_BEFORE_DROP as u8, CODE_TICK_SYNCS as u8, CODE_WAL_FORMAT, CODE_RESTART_REUSES_SEQ as u8, wl.max_size, wl.max_entries, wl.incs.len());
+fn op_line(wl: &Workload, bases: &[usize], spawn_failed: &[bool]) -> String {
+    let head = if wl.pol == Pol::Always { "G".to_string() } else { format!("GP {}", wl.pol.letter()) };
+    let mut s = format!("{} {} {} {} {} {} {} K {}", head, CODE_SYNCS_BEFORE_DROP as u8, CODE_TICK_SYNCS as u8, CODE_WAL_FORMAT, CODE_RESTART_REUSES_SEQ as u8, wl.max_size, wl.max_entries, wl.incs.len());
     for (k, inc) in wl.incs.iter().enumerate() {
         let base = bases.get(k).cloned().unwrap_or(0);
         s.push_str(&format!(" F {}", inc.faults.len()));
@@ -413,15 +549,26 @@ fn op_line(wl: &Workload, bases: &[usize]) -> String {
             s.push_str(&format!(" {} {}", base + i, o.show()));
         }
         s.push_str(&format!(" D {}", inc.dead.map(|d| (base + d).to_string()).unwrap_or("-".into())));
-        s.push_str(&format!(" W {}", inc.groups.len()));
-        for g in &inc.groups {
+        let failed = spawn_failed.get(k).cloned().unwrap_or(false);
+        let groups: Vec<Vec<Msg>> = if failed {
+            vec![]
+        } else if wl.no_yield {
+            inc.groups.iter().map(|g| g.iter().take(crate::walcov::SRC_WAL_CHANNEL_CAPACITY).cloned().collect()).collect()
+        } else {
+            inc.groups.clone()
+        };
+        s.push_str(&format!(" W {}", groups.len()));
+        for g in &groups {
             s.push_str(&format!(" {}", g.len()));
             for m in g {
                 match m {
                     Msg::Durable(w) => s.push_str(&format!(" w {} {} {}", w.id, w.ts, hex(&w.data))),
+                    Msg::Cancelled(w) => s.push_str(&format!(" c {} {} {}", w.id, w.ts, hex(&w.data))),
                     Msg::Forget(w) => s.push_str(&format!(" f {} {} {}", w.id, w.ts, hex(&w.data))),
                     Msg::Tick => s.push_str(" t"),
                     Msg::Truncate(t) => s.push_str(&format!(" x {}", t)),
+                    Msg::TruncateListFails(_) => s.push_str(" xl"),
+                    Msg::Shutdown => s.push_str(" s"),
                 }
             }
         }
@@ -436,13 +583,13 @@ fn op_line(wl: &Workload, bases: &[usize]) -> String {
 
 fn run_workload(wl: &Workload, out: &mut Out, source: &str) {
     let r = run_real(wl);
-    let by_data: HashMap<Vec<u8>, u64> = wl.writes().iter().map(|w| (w.data.clone(), w.id)).collect();
+    let by_data: HashMap<(Vec<u8>, u64), u64> = wl.writes().iter().map(|w| ((w.data.clone(), w.ts), w.id)).collect();
     let mut acks = r.acks.clone();
     acks.sort();
     let acks_s: Vec<String> = acks.iter().map(|(i, a, _)| format!("{}={}", i, a)).collect();
     let rec: Vec<Vec<String>> = r.images.iter().map(|img| recover_ids(img, &by_data, wl.max_size)).collect();
     let crash_s: Vec<String> = rec.iter().map(|v| v.join(" ")).collect();
-    out.op(op_line(wl, &r.bases), format!("acks {} | trace {} | crash {}", acks_s.join(" "), r.trace.join(" "), crash_s.join(" ; ")));
+    out.op(op_line(wl, &r.bases, &r.spawn_failed), format!("acks {} | trace {} | crash {}", acks_s.join(" "), r.trace.join(" "), crash_s.join(" ; ")));
 
     // distribution
     let nw: usize = wl.writes().len();
@@ -486,9 +633,10 @@ fn run_workload(wl: &Workload, out: &mut Out, source: &str) {
     for (_, a, _) in &acks {
         out.count(&format!("ack:{}", a));
     }
-    let canon = op_line(wl, &r.bases);
+    let canon = op_line(wl, &r.bases, &r.spawn_failed);
     out.case(&canon, nw >= 2 && creates >= 1);
     let replay = json!({
+        "fsync_policy": format!("{:?}", wl.pol), "config_through_serde_json": wl.cfg_via_json,
         "max_file_size": wl.max_size, "group_commit_max_entries": wl.max_entries,
         "incarnations": wl.incs.iter().enumerate().map(|(k, inc)| json!({
             "first_call_index": r.bases.get(k),
@@ -496,9 +644,12 @@ fn run_workload(wl: &Workload, out: &mut Out, source: &str) {
             "machine_dies_from_call_index": inc.dead.map(|d| r.bases.get(k).cloned().unwrap_or(0) + d),
             "bursts": inc.groups.iter().map(|g| g.iter().map(|m| match m {
                 Msg::Durable(w) => format!("write_durable id {} ts {} key w{} ({} payload bytes)", w.id, w.ts, w.id, w.data.len()),
+                Msg::Cancelled(w) => format!("write_durable id {} ts {} (caller dropped while waiting for the ack)", w.id, w.ts),
                 Msg::Forget(w) => format!("write_fire_and_forget id {} ts {}", w.id, w.ts),
                 Msg::Tick => "sync_tick".to_string(),
                 Msg::Truncate(t) => format!("truncate({})", t),
+                Msg::TruncateListFails(t) => format!("truncate({}) while store.list() fails", t),
+                Msg::Shutdown => "shutdown() (a message of the burst)".to_string(),
             }).collect::<Vec<_>>()).collect::<Vec<_>>(),
             "ends_with": match inc.ending { Ending::Crash => "machine crash, then restart", Ending::Clean => "clean shutdown, then restart", Ending::End => "end of the history" },
         })).collect::<Vec<_>>(),
@@ -507,10 +658,33 @@ fn run_workload(wl: &Workload, out: &mut Out, source: &str) {
     out.sample(replay.clone());
 
     check_create_over(out, &r.trace, &replay);
-    // ORACLE: an Ok ack whose entry is missing from recovery of a crash image taken after the
+    out.count(&format!("policy:{:?}", wl.pol));
+    if wl.cfg_via_json {
+        out.count("config:through-serde-json");
+    }
+    if r.policy_mismatch {
+        out.violation("C09:config:policy-not-the-configured-one", "WalActorHandle::fsync_policy() differs from the policy of the configuration the actor was spawned with", json!({"workload": replay}));
+    }
+    for f in &r.spawn_failed {
+        if *f {
+            out.count("incarnation:spawn-failed(list error in WalRotator::new)");
+        }
+    }
+    if wl.no_yield {
+        out.count("burst:one-caller-no-yield(mailbox capacity crossed)");
+    }
+    out.count(&format!("group_commit_max_wait_us:{}", wl.max_wait_us));
+    if r.actor_panicked {
+        out.violation("C09:actor-panicked", "the WAL actor task panicked", json!({"workload": replay}));
+    }
+    check_synced_survives(wl, &r, &rec, out, &replay);
+    // ORACLE (Always): an Ok ack whose entry is missing from recovery of a crash image taken after the
     // caller saw the ack
     for (id, a, seen_at) in &acks {
-        if *a != "ok" {
+        if *a != "ok" || wl.pol != Pol::Always {
+            if *a == "ok" {
+                out.count("ack-ok-without-durability-claim(EverySecond/No)");
+            }
             continue;
         }
         let ids = id.to_string();
@@ -550,6 +724,55 @@ fn run_workload(wl: &Workload, out: &mut Out, source: &str) {
     }
 }
 
+/// ORACLE (every policy, independent of acks and of the model): an entry whose append succeeded and
+/// whose file was successfully fsynced afterwards is recovered from every later crash image — until
+/// that file is deleted by a truncation or re-created.  This is the floor under the weaker contract of
+/// EverySecond / No ("what a tick / a rotation has synced stays") and under Always.
+fn check_synced_survives(wl: &Workload, r: &RunResult, rec: &[Vec<String>], out: &mut Out, replay: &serde_json::Value) {
+    for w in wl.writes() {
+        let enc = match WalEntry::from_delta(&w.delta, w.ts) {
+            Ok(e) => e.encode(),
+            Err(_) => continue,
+        };
+        let hit = r.appended.iter().find(|(_, _, b, ok)| *ok && *b == enc);
+        let (ia, name) = match hit {
+            Some((i, n, _, _)) => (*i, n.clone()),
+            None => continue,
+        };
+        let q = match parse_seq(&name) {
+            Some(q) => q,
+            None => continue,
+        };
+        let synced_at = r.trace.iter().enumerate().skip(ia + 1).find(|(_, c)| **c == format!("s{}:ok", q)).map(|(j, _)| j);
+        let j = match synced_at {
+            Some(j) => j,
+            None => {
+                out.count("synced-oracle:never-synced");
+                continue;
+            }
+        };
+        if wl.max_truncate().map(|t| w.ts <= t).unwrap_or(false) {
+            continue;
+        }
+        out.count("synced-oracle:checked");
+        // image index t = after t calls; the sync is call j, so images j+1.. contain it
+        for t in (j + 1)..rec.len() {
+            let gone = r.trace[..t].iter().enumerate().any(|(k, c)| k > j && (*c == format!("d{}:ok", q) || c.starts_with(&format!("c{}:ok", q))));
+            if gone {
+                break;
+            }
+            if !rec[t].contains(&w.id.to_string()) {
+                out.violation(
+                    &format!("C09:synced-entry-lost:{:?}", wl.pol),
+                    &format!("write {} was appended (call {}) and its file fsynced (call {}) but it is missing from WAL recovery after a crash at I/O index {}", w.id, ia, j, t),
+                    json!({"workload": replay, "lost_id": w.id, "crash_index": t}),
+                );
+                break;
+            }
+        }
+    }
+}
+
 /// a `create` over a name that already exists truncates that file (oracle, independent of acks)
 fn check_create_over(out: &mut Out, trace: &[String], replay: &serde_json::Value) {
     if let Some((i, c)) = trace.iter().enumerate().find(|(_, c)| c.starts_with('c') && c.ends_with(":over")) {
@@ -562,13 +785,14 @@ fn check_create_over(out: &mut Out, trace: &[String], replay: &serde_json::Value
 }
 
 /// one incarnation: bursts of messages + faults at call indices relative to its first call
-fn gen_inc(rng: &mut Rng, next_id: &mut u64, vlen: usize, vary: bool) -> (Vec<Vec<Msg>>, Vec<(usize, Outcome)>, usize) {
+fn gen_inc(rng: &mut Rng, next_id: &mut u64, vlen: usize, vary: bool, cancel: bool) -> (Vec<Vec<Msg>>, Vec<(usize, Outcome)>, usize) {
     let ng = rng.range(1, 4) as usize;
     let mut groups: Vec<Vec<Msg>> = Vec::new();
     // which non-write messages this incarnation mixes in (every public message of WalActorHandle)
     let with_ticks = rng.chance(1, 2);
     let with_forget = rng.chance(1, 3);
     let with_truncate = rng.chance(1, 4);
+    let with_cancel = cancel && rng.chance(1, 4);
     for _ in 0..ng {
         let n = rng.range(1, 5) as usize;
         let mut g = Vec::new();
@@ -577,15 +801,21 @@ fn gen_inc(rng: &mut Rng, next_id: &mut u64, vlen: usize, vary: bool) -> (Vec<Ve
             if with_ticks && k < 2 {
                 g.push(Msg::Tick);
             } else if with_truncate && k == 2 {
-                g.push(Msg::Truncate(*rng.pick(&[0u64, 5, 20, 49, 50, u64::MAX - 1])));
+                let t = *rng.pick(&[0u64, 5, 20, 49, 50, u64::MAX - 1]);
+                g.push(if rng.chance(1, 6) { Msg::TruncateListFails(t) } else { Msg::Truncate(t) });
             } else {
                 *next_id += 1;
                 let l = if vary { rng.range(0, 40) as usize } else { vlen };
                 let w = mk_write(*next_id, if rng.chance(1, 10) { u64::MAX } else { rng.below(50) }, l);
-                g.push(if with_forget && k == 3 { Msg::Forget(w) } else { Msg::Durable(w) });
+                g.push(if with_forget && k == 3 { Msg::Forget(w) } else if with_cancel && k == 4 { Msg::Cancelled(w) } else { Msg::Durable(w) });
             }
         }
         groups.push(g);
+    }
+    if rng.chance(1, 12) {
+        let gi = rng.below(groups.len() as u64) as usize;
+        let pos = rng.below(groups[gi].len() as u64 + 1) as usize;
+        groups[gi].insert(pos, Msg::Shutdown);
     }
     if groups.iter().flatten().all(|m| m.write().is_none()) {
         *next_id += 1;
@@ -628,16 +858,23 @@ fn gen_workload(rng: &mut Rng, next_id: &mut u64) -> Workload {
         5..=8 => 2,
         _ => 3,
     };
+    let pol = match rng.below(10) {
+        0..=4 => Pol::Always,
+        5..=7 => Pol::EverySec,
+        _ => Pol::No,
+    };
     let mut incs = Vec::new();
     for n in 0..k {
-        let (groups, faults, total) = gen_inc(rng, next_id, vlen, vary);
+        let (groups, faults, total) = gen_inc(rng, next_id, vlen, vary, pol == Pol::Always);
         let ending = if n + 1 == k { Ending::End } else if rng.chance(1, 2) { Ending::Crash } else { Ending::Clean };
         let dead = if ending != Ending::Clean && rng.chance(1, 5) { Some(rng.below(total as u64) as usize) } else { None };
-        incs.push(Inc { faults, dead, groups, ending });
+        let spawn_list_fails = n > 0 && rng.chance(1, 25);
+        incs.push(Inc { faults, dead, groups, ending, spawn_list_fails });
     }
     let esz = 16 + incs[0].groups.iter().flatten().find_map(|m| m.write()).unwrap().data.len();
     // rotation thresholds: every entry its own file / header + k entries (+-1) / one file
-    let max_size = match rng.below(7) {
+    let max_size = match rng.below(8) {
+        7 => *rng.pick(&[0usize, 1, 16]), // at or below the header size: every entry gets its own file
         0 => 17,
         1 => 16 + esz,
         2 => 16 + esz + 1,
@@ -646,14 +883,165 @@ fn gen_workload(rng: &mut Rng, next_id: &mut u64) -> Workload {
         5 => 16 + 3 * esz,
         _ => 1 << 20,
     };
-    let max_entries = *rng.pick(&[1usize, 2, 3, 8]);
-    Workload { max_size, max_entries, incs }
+    let max_entries = *rng.pick(&[0usize, 1, 2, 3, 8, 64]);
+    Workload { pol, cfg_via_json: rng.chance(1, 4), max_wait_us: *rng.pick(&[0u64, 200, 200, 5000]), no_yield: false, max_size, max_entries, incs }
+}
+
+
+fn show_config(c: &WalConfig) -> String {
+    format!(
+        "enabled={} policy={} max_file_size={} max_entries={} max_wait_us={} trunc_interval_ms={}",
+        c.enabled as u8,
+        match c.fsync_policy { FsyncPolicy::Always => "a", FsyncPolicy::EverySecond => "e", FsyncPolicy::No => "n" },
+        c.max_file_size,
+        c.group_commit_max_entries,
+        c.group_commit_max_wait.as_micros(),
+        c.truncation_check_interval.as_millis()
+    )
+}
+
+/// the configuration constructors and the serde spelling of the policies against the model's table
+fn config_ops(out: &mut Out) {
+    let dir = std::path::PathBuf::from("/nonexistent");
+    for (name, c) in [("default", WalConfig::default()), ("test", WalConfig::test()), ("always_fsync", WalConfig::always_fsync(dir.clone())), ("every_second", WalConfig::every_second(dir.clone()))] {
+        out.op(format!("CFG {}", name), show_config(&c));
+        // through serde_json and back: every field survives (duration_micros / duration_millis helpers)
+        let back: Result<WalConfig, _> = serde_json::to_string(&c).and_then(|j| serde_json::from_str(&j));
+        match back {
+            Ok(b) if show_config(&b) == show_config(&c) && b.wal_dir == c.wal_dir => out.count("config:serde-roundtrip:ok"),
+            _ => out.violation("C09:config:serde-roundtrip", "a WalConfig did not survive serde_json", json!({"constructor": name})),
+        }
+    }
+    if FsyncPolicy::default() != WalConfig::default().fsync_policy {
+        out.violation("C09:config:default-policy-mismatch", "FsyncPolicy::default() differs from WalConfig::default().fsync_policy", json!({}));
+    }
+    for n in ["Always", "EverySecond", "No", "always", "Never", "Periodic", ""] {
+        let r: Result<FsyncPolicy, _> = serde_json::from_str(&format!("\"{}\"", n));
+        out.op(
+            format!("CFGP {}", if n.is_empty() { "_" } else { n }),
+            match r { Ok(FsyncPolicy::Always) => "a".into(), Ok(FsyncPolicy::EverySecond) => "e".into(), Ok(FsyncPolicy::No) => "n".into(), Err(_) => "err".into() },
+        );
+    }
+}
+
+/// PRODUCTION PATH: a real `ReplicatedShardedState` (16 shard actors) with `set_wal_handle`: every
+/// command that ships a delta reaches the WAL through `execute` — `write_durable` in Always mode (the
+/// reply waits for the group fsync; a WAL error is only logged), `write_fire_and_forget` otherwise.
+/// Commands are issued one after the other; the deltas are captured through the delta sink; the
+/// store's call trace and the recovered set at every crash index are compared with the model (acks are
+/// not observable on this path: op `GQ`).  Oracle (Always, fault-free prefix): when `execute` returns,
+/// the delta it shipped is recoverable.
+fn production_path(out: &mut Out, rng: &mut Rng, pol: Pol, next_id: &mut u64) {
+    use redis_sim::production::ReplicatedShardedState;
+    use redis_sim::redis::Command;
+    use redis_sim::replication::ReplicationConfig;
+    use redis_sim::streaming::delta_sink::delta_sink_channel;
+    let max_size = *rng.pick(&[17usize, 120, 400, 1 << 20]);
+    let max_entries = *rng.pick(&[1usize, 8, 64]);
+    let nf = rng.below(3) as usize;
+    let ncmds = rng.range(3, 10) as usize;
+    let mut faults: Vec<(usize, Outcome)> = Vec::new();
+    for _ in 0..nf {
+        let i = rng.below((ncmds * 4 + 2) as u64) as usize;
+        if faults.iter().all(|(j, _)| *j != i) {
+            faults.push((i, match rng.below(3) { 0 => Outcome::Fail, 1 => Outcome::Full, _ => Outcome::Torn(rng.below(40) as usize) }));
+        }
+    }
+    faults.sort_by_key(|f| f.0);
+    let wl0 = Workload { pol, cfg_via_json: rng.chance(1, 3), max_wait_us: 200, no_yield: false, max_size, max_entries, incs: vec![] };
+    let cfg = make_config(&wl0);
+    let store = FaultStore::new(HashMap::new());
+    store.arm(&faults, None);
+    let keys = ["pk1", "pk2", "pk:é", "pk4"];
+    let mut cmds: Vec<Command> = Vec::new();
+    for _ in 0..ncmds {
+        let k = rng.pick(&keys).to_string();
+        cmds.push(match rng.below(8) {
+            0..=2 => Command::set(k, SDS::new((0..rng.range(0, 6)).map(|_| rng.below(256) as u8).collect())),
+            3 => Command::del(k),
+            4 => Command::HSet(format!("h{}", k), vec![(SDS::from_str("f"), SDS::new(vec![rng.below(256) as u8]))]),
+            5 => Command::Incr(format!("n{}", k)),
+            6 => Command::Get(k), // ships nothing
+            _ => Command::Del(vec![k, "pk2".to_string()]), // multi-key DEL: one delta per existing key
+        });
+    }
+    let rt = tokio::runtime::Builder::new_current_thread().enable_time().start_paused(true).build().unwrap();
+    let st2 = store.clone();
+    let cmds2 = cmds.clone();
+    // (delta, number of I/O calls when execute returned) per shipped delta, in WAL order
+    let shipped: Vec<(ReplicationDelta, usize)> = rt.block_on(async move {
+        let (handle, task) = spawn_wal_actor(st2.clone(), cfg).expect("spawn actor");
+        let mut st = ReplicatedShardedState::new(ReplicationConfig { replica_id: 1, ..ReplicationConfig::default() });
+        let (tx, rx) = delta_sink_channel();
+        st.set_delta_sink(tx);
+        st.set_wal_handle(handle.clone());
+        let mut shipped = Vec::new();
+        for c in cmds2 {
+            let _ = st.execute(c).await;
+            // the instant the client has its reply
+            let at = st2.calls();
+            // fire-and-forget modes: let the actor take the message before the next command
+            tokio::time::sleep(Duration::from_millis(10)).await;
+            for d in rx.drain() {
+                shipped.push((d, at));
+            }
+        }
+        st.clear_wal_handle();
+        drop(st);
+        handle.shutdown().await;
+        drop(handle);
+        let _ = task.await;
+        shipped
+    });
+    // the model's workload: one message per shipped delta, each its own burst
+    let mut groups: Vec<Vec<Msg>> = Vec::new();
+    let mut seen: Vec<(u64, usize)> = Vec::new();
+    for (d, at) in &shipped {
+        *next_id += 1;
+        let data = bincode::serialize(d).unwrap();
+        let w = W { id: *next_id, ts: d.value.timestamp.time, delta: Arc::new(d.clone()), data };
+        seen.push((w.id, *at));
+        groups.push(vec![if pol == Pol::Always { Msg::Durable(w) } else { Msg::Forget(w) }]);
+    }
+    let wl = Workload { incs: vec![Inc { faults: faults.clone(), dead: None, groups, ending: Ending::End, spawn_list_fails: false }], ..wl0 };
+    let s = store.inner.lock().unwrap();
+    let by_data: HashMap<(Vec<u8>, u64), u64> = wl.writes().iter().map(|w| ((w.data.clone(), w.ts), w.id)).collect();
+    let rec: Vec<Vec<String>> = s.images.iter().map(|img| recover_ids(img, &by_data, wl.max_size)).collect();
+    let crash_s: Vec<String> = rec.iter().map(|v| v.join(" ")).collect();
+    let line = op_line(&wl, &[0], &[false]).replacen(if pol == Pol::Always { "G " } else { "GP " }, if pol == Pol::Always { "GQ a " } else { "GQ " }, 1);
+    out.op(line.clone(), format!("acks - | trace {} | crash {}", s.trace.join(" "), crash_s.join(" ; ")));
+    out.count(&format!("production-path:{:?}", pol));
+    out.count_n("production-path:deltas-shipped", shipped.len() as u64);
+    out.case(&line, shipped.len() >= 2);
+    let all_ok_until = s.trace.iter().position(|c| !c.ends_with(":ok") && !c.ends_with(":over")).unwrap_or(s.trace.len());
+    if pol == Pol::Always {
+        for (id, at) in &seen {
+            // every call up to the moment execute returned succeeded: the reply was sent after a successful
+            // group fsync, so the delta must be in every crash image from then on
+            if *at <= all_ok_until {
+                out.count("production-path:oracle-checked");
+                for t in *at..rec.len().min(all_ok_until + 1) {
+                    if !rec[t].contains(&id.to_string()) {
+                        out.violation(
+                            "C09:production-path:replied-before-durable",
+                            &format!("ReplicatedShardedState::execute returned (Always policy, no I/O fault so far) but the delta it shipped is missing from WAL recovery after a crash at I/O index {}", t),
+                            json!({"commands": cmds.iter().map(|c| format!("{:?}", c)).collect::<Vec<_>>(), "max_file_size": wl.max_size, "group_commit_max_entries": wl.max_entries, "delta_id": id, "returned_at_call": at, "crash_index": t, "trace": s.trace}),
+                        );
+                        break;
+                    }
+                }
+            }
+        }
+    }
 }
 
 pub fn run(a: &Args) {
     let mut out = Out::new(&a.out);
     let mut rng = Rng::new(a.seed);
+    #[allow(unused_assignments)]
     let mut next_id = 0u64;
+    crate::walcov::report(&mut out, "C09");
+    config_ops(&mut out);
     // fixed corpus (DESIGN.md §6.1; both were defects of the pinned tree, repaired by the `fix:` commit
     // "WAL rotator fsyncs a writer before dropping it": they must PASS now — the oracle below is
     // unconditional): one entry per file, one burst of 3 writers
@@ -695,11 +1083,15 @@ pub fn run(a: &Args) {
                 let g2: Vec<Msg> = (18..=22).map(|i| Msg::Durable(mk_write(i, i - 12, 1))).collect();
                 let g3: Vec<Msg> = (23..=24).map(|i| Msg::Durable(mk_write(i, i - 12, 1))).collect();
                 let wl = Workload {
+                    pol: Pol::Always,
+                    cfg_via_json: false,
+                    max_wait_us: 200,
+                    no_yield: false,
                     max_size,
                     max_entries: 8,
                     incs: vec![
-                        Inc { faults: vec![], dead: None, groups: vec![g1, g2], ending: first_end },
-                        Inc { faults: vec![], dead: None, groups: vec![g3], ending: Ending::Crash },
+                        Inc { faults: vec![], dead: None, groups: vec![g1, g2], ending: first_end, spawn_list_fails: false },
+                        Inc { faults: vec![], dead: None, groups: vec![g3], ending: Ending::Crash, spawn_list_fails: false },
                     ],
                 };
                 let before = out.oracle.len();
@@ -708,6 +1100,63 @@ pub fn run(a: &Args) {
             }
         }
         next_id = 24;
+        // the other policies (witnesses of Props/C09Policy.lean on the real actor): one write answered Ok,
+        // crash before any tick -> nothing recovered (EverySecond, No); write + tick; a failed tick fsync
+        // followed by more ticks (not retried); a rotation in No mode
+        let one = |pol: Pol, max_size: usize, faults: Vec<(usize, Outcome)>, groups: Vec<Vec<Msg>>, ending: Ending| Workload {
+            pol, cfg_via_json: false, max_wait_us: 200, no_yield: false, max_size, max_entries: 8,
+            incs: vec![Inc { faults, dead: None, groups, ending, spawn_list_fails: false }, Inc { faults: vec![], dead: None, groups: vec![vec![Msg::Tick]], ending: Ending::End, spawn_list_fails: false }],
+        };
+        for pol in [Pol::EverySec, Pol::No] {
+            run_workload(&one(pol, 1000, vec![], vec![vec![Msg::Durable(mk_write(25, 1, 1))]], Ending::Crash), &mut out, "corpus:policy:ack-then-crash-before-tick");
+            run_workload(&one(pol, 1000, vec![], vec![vec![Msg::Durable(mk_write(26, 1, 1))], vec![Msg::Tick]], Ending::Crash), &mut out, "corpus:policy:ack-tick-crash");
+            run_workload(&one(pol, 1000, vec![(3, Outcome::Fail)], vec![vec![Msg::Durable(mk_write(27, 1, 1))], vec![Msg::Tick], vec![Msg::Tick], vec![Msg::Tick]], Ending::Crash), &mut out, "corpus:policy:failed-tick-not-retried");
+            run_workload(&one(pol, 17, vec![], vec![vec![Msg::Durable(mk_write(28, 1, 1)), Msg::Durable(mk_write(29, 2, 1))]], Ending::Crash), &mut out, "corpus:policy:rotation-syncs-the-closed-file");
+        }
+        next_id = 29;
+        // where the loop takes a Shutdown (top / group-commit wait / drain) depends on the messages before it:
+        // after a full batch the next message is taken at the TOP; a message that appends nothing (tick,
+        // truncation, failed list) sends the loop into the DRAIN phase, a successful write into the WAIT
+        for lead in [Msg::Tick, Msg::Truncate(0), Msg::TruncateListFails(5), Msg::Forget(mk_write(30, 1, 1))] {
+            for max_entries in [1usize, 2, 8] {
+                let mut g = vec![Msg::Durable(mk_write(next_id + 1, 1, 1)), Msg::Durable(mk_write(next_id + 2, 2, 1)), lead.clone(),
+                    Msg::Durable(mk_write(next_id + 3, 3, 1)), Msg::Shutdown, Msg::Durable(mk_write(next_id + 4, 4, 1))];
+                next_id += 4;
+                if max_entries == 8 {
+                    g.remove(0);
+                }
+                let wl = Workload { pol: Pol::Always, cfg_via_json: false, max_wait_us: 200, no_yield: false, max_size: 200, max_entries,
+                    incs: vec![Inc { faults: vec![], dead: None, groups: vec![g, vec![Msg::Durable(mk_write(next_id + 1, 9, 1))]], ending: Ending::End, spawn_list_fails: false }] };
+                next_id += 1;
+                run_workload(&wl, &mut out, "corpus:shutdown-after-a-message-that-appends-nothing");
+            }
+        }
+        // more concurrent writers than the mailbox holds (WAL_CHANNEL_CAPACITY) and than one batch may
+        // hold (default group_commit_max_entries = 64): senders block and are served in order, the batches
+        // are cut at 64
+        {
+            let n = crate::walcov::SRC_WAL_CHANNEL_CAPACITY as u64 + 44;
+            let g: Vec<Msg> = (0..n).map(|i| Msg::Durable(mk_write(next_id + 1 + i, i % 50, 1))).collect();
+            next_id += n;
+            let wl = Workload { pol: Pol::Always, cfg_via_json: false, max_wait_us: 200, no_yield: false, max_size: 4096, max_entries: WalConfig::default().group_commit_max_entries,
+                incs: vec![Inc { faults: vec![(900, Outcome::Fail)], dead: None, groups: vec![g], ending: Ending::End, spawn_list_fails: false }] };
+            let before = out.oracle.len();
+            run_workload(&wl, &mut out, "corpus:more-writers-than-the-mailbox");
+            out.count(if out.oracle.len() == before { "corpus:more-writers-than-the-mailbox:pass" } else { "corpus:more-writers-than-the-mailbox:FAIL" });
+            // one caller sends capacity + 44 fire-and-forget writes without yielding: the excess is dropped
+            for pol in [Pol::No, Pol::EverySec, Pol::Always] {
+                let mut g: Vec<Msg> = (0..n).map(|i| Msg::Forget(mk_write(next_id + 1 + i, i % 50, 1))).collect();
+                g.insert(100, Msg::Tick);
+                next_id += n;
+                let wl = Workload { pol, cfg_via_json: false, max_wait_us: 200, no_yield: true, max_size: 4096, max_entries: 64,
+                    incs: vec![Inc { faults: vec![], dead: None, groups: vec![g], ending: Ending::End, spawn_list_fails: false }] };
+                run_workload(&wl, &mut out, "corpus:one-caller-floods-the-mailbox");
+            }
+        }
+    }
+    for i in 0..(a.n / 25).max(12) {
+        let pol = [Pol::Always, Pol::Always, Pol::EverySec, Pol::No][(i % 4) as usize];
+        production_path(&mut out, &mut rng, pol, &mut next_id);
     }
 
     for _ in 0..a.n {
